@@ -226,8 +226,10 @@ def run(chk):
         st = K.stmt_of(call)
         blk = PC._block_of(st)
         nxt = blk[blk.index(st) + 1] if blk and blk.index(st) + 1 < len(blk) else None
-        if isinstance(nxt, ast.Return):
-            chk.ok("C07.wake.pick", call, "exactly one waiter is woken per freed slot (return follows the wake)")
+        if isinstance(nxt, ast.Return) and PC.has_lit(PC.pc(nxt), "$W.done()", False) is not None:
+            chk.ok("C07.wake.pick", call, "exactly one waiter is woken per freed slot (return follows the wake, under the same `not done()` guard)")
+        elif isinstance(nxt, ast.Return):
+            chk.violation("C07.wake.pick", nxt, "return", "!(waiter.done())", "the search stops at the first queued waiter even when it is already cancelled/done: the wake-up is absorbed and live waiters behind it stay blocked")
         else:
             chk.violation("C07.wake.pick", call, K.short(call), "return after the wake", "more than one waiter may be woken for one freed slot")
     # a done waiter found in the queue is skipped, not a reason to stop: the loop continues
